@@ -78,6 +78,8 @@ def cases(tier, rng):
                 yield Case("note.change_octave", [x, o, d], "change_octave", kind=("oct",))
     for c in sequence_cases():
         yield c
+    for c in instrument_track_cases():
+        yield c
     for c in section_cases():
         yield c
     for c in setitem_cases():
@@ -115,6 +117,15 @@ SEQUENCES = [
     ([("C", 4), ("C", 4), ("D", 4), ("C", 4), ("D", 4)], ["transpose", "2", True]),
     ([("A", 3), ("A", 3), ("A", 3)], ["transpose", "b7", False]),
 ]
+def instrument_track_cases():
+    """a track that has an instrument attached and holds rests between its notes, transformed as a whole"""
+    for instr in ("Piano", "Instrument", "MidiInstrument"):
+        for tr in (["transpose", "3", True], ["transpose", "5", False], ["augment"], ["diminish"]):
+            ops = [["add", [["obj", "C", 4]], 4], ["add", None, 4], ["add", [["obj", "E", 4], ["obj", "G", 4]], 2], ["add", None, 1],
+                   ["add", [["obj", "A", 3]], 2], ["add", None, 2]]
+            yield Case("track.run", [instr, ops + [tr]], "track/instrument-with-rests", kind=("track",))
+            yield Case("track.run", [instr, ops + [tr, tr]], "track/instrument-with-rests", kind=("track",))
+
 def sequence_cases():
     for notes, tr in SEQUENCES:
         for value in (1, 2):             # one note per 4/4 bar, or two equal notes per bar
